@@ -933,10 +933,14 @@ def _mask(sig, num_args, hide_args, hide_kwargs,
 
     pokargs_by_name = dict((p.name, p) for p in pokargs)
     consumed_names = set()
+    # names that can no longer be passed by keyword: a consumed positional-only
+    # parameter is not one of them, a keyword of that name goes to **kwargs
+    bound_names = set()
 
     if hide_args:
         consumed_names.update(p.name for p in posargs)
         consumed_names.update(p.name for p in pokargs)
+        bound_names.update(p.name for p in pokargs)
         posargs = []
         pokargs = []
     elif num_args:
@@ -944,6 +948,8 @@ def _mask(sig, num_args, hide_args, hide_kwargs,
         for param in _pop_chain(posargs, pokargs):
             consume -= 1
             consumed_names.add(param.name)
+            if param.kind != param.POSITIONAL_ONLY:
+                bound_names.add(param.name)
             if not consume:
                 break
         else:
@@ -969,7 +975,7 @@ def _mask(sig, num_args, hide_args, hide_kwargs,
         named_args = []
 
     for kwarg_name in named_args:
-        if kwarg_name in consumed_names:
+        if kwarg_name in bound_names:
             raise ValueError('Duplicate argument: {0!r}'.format(kwarg_name))
         elif kwarg_name in pokargs_by_name:
             i = pokargs.index(pokargs_by_name[kwarg_name])
@@ -1004,7 +1010,7 @@ def _mask(sig, num_args, hide_args, hide_kwargs,
                 kwarg_name, _util.funcsigs.Parameter.KEYWORD_ONLY,
                 default=named_args[kwarg_name])
             src[kwarg_name] = [partial_obj]
-        consumed_names.add(kwarg_name)
+        bound_names.add(kwarg_name)
 
     if hide_kwargs or hide_varkwargs:
         if varkwargs:
